@@ -419,6 +419,14 @@ func (h *Hist) gen() []*TxRec {
 		case 1, 2:
 			limit = need.Add(sdk.NewInt64Coin("uband", 5))
 			tag = "req:limit-plus"
+		case 3:
+			if !need.IsZero() { // a limit that does not mention (one of) the fee denoms at all
+				limit = sdk.NewCoins(sdk.NewInt64Coin("uxyz", 1_000_000))
+				if len(need) > 1 {
+					limit = limit.Add(need[0])
+				}
+				tag = "req:limit-other-denom"
+			}
 		}
 		msg, err := bandtsstypes.NewMsgRequestSignature(tsstypes.NewTextSignatureOrder(text), limit, r.Addr.String())
 		if err != nil {
